@@ -74,7 +74,6 @@ inductive Err where
   | notImplementedError
   | indexError
   | attributeError
-  | unsafeWrite           -- the jitted helper would index its output out of bounds (no bounds checks): undefined
   deriving DecidableEq, Repr
 
 inductive DType where
@@ -322,12 +321,20 @@ def resultShape (shape : List Nat) (out : Option Operand) : List Nat :=
   | some o => o.shape
   | none => shape
 
-/-- add / subtract of two Modes of equal spin (shared by the ufunc and the method) -/
+/-- `if out is not None: if result.shape != shape: raise ValueError` (Modes×Modes add / subtract / multiply) -/
+def outShapeOk (shape : List Nat) (out : Option Operand) : Bool :=
+  match out with
+  | none => true
+  | some o => o.shape == shape
+
+/-- add / subtract of two Modes of equal spin (shared by the ufunc and the method).  With `out=` the output must
+    have exactly the result's shape; it is then cleared and written (entries: `addEntries`). -/
 def addCore (self m1 m2 : Obj) (out : Option Operand) : Outcome :=
   let L := Max.max m1.md.ellMax m2.md.ellMax
   match bcast m1.lead m2.lead with
   | none => .err .valueError
   | some ld =>
+    if !outShapeOk (ld ++ [(Ysize 0 L).toNat]) out then .err .valueError else
     let res := resultShape (ld ++ [(Ysize 0 L).toNat]) out
     match sliceAssign res (Ysize 0 m1.md.ellMax).toNat m1.shape with
     | .error e => .err e
@@ -346,9 +353,9 @@ def productEllMax (m1 m2 : Obj) (truncator : Option Trunc) : Int :=
     Max.max ((m1.md.trunc.getD .sum).apply m1.md.ellMax m2.md.ellMax)
             ((m2.md.trunc.getD .sum).apply m1.md.ellMax m2.md.ellMax)
 
-/-- multiply of two Modes (shared by the ufunc and the method).  With `out=` the jitted helper accumulates into
-    the caller's array without bounds checks: a too-short last axis or a leading shape the product cannot
-    be written to is outside the defined domain. -/
+/-- multiply of two Modes (shared by the ufunc and the method).  With `out=` the output must have exactly the
+    product's shape (ValueError otherwise, before anything is written); it is then cleared and the jitted helper
+    accumulates into it (entries: `mulEntries`). -/
 def mulCore (self m1 m2 : Obj) (truncator : Option Trunc) (out : Option Operand) : Outcome :=
   let s := m1.md.spin + m2.md.spin
   let L := productEllMax m1 m2 truncator
@@ -356,13 +363,9 @@ def mulCore (self m1 m2 : Obj) (truncator : Option Trunc) (out : Option Operand)
   | none => .err .valueError
   | some ld =>
     let shape := ld ++ [(Ysize 0 L).toNat]
-    let res := resultShape shape out
-    match res.reverse with
-    | [] => .err .unsafeWrite
-    | n :: rl =>
-      if n < (Ysize 0 L).toNat ∨ !(bcastTo ld rl.reverse) then .err .unsafeWrite else
-      let mt : Meta := { spin := s, ellMax := L, trunc := self.md.trunc }
-      withOut out mt (construct mt res)
+    if !outShapeOk shape out then .err .valueError else
+    let mt : Meta := { spin := s, ellMax := L, trunc := self.md.trunc }
+    withOut out mt (construct mt (resultShape shape out))
 
 /-- the loops of conjugate / real / imag visit `LM_index(ell, ±m, 0)` for `lo ≤ ell ≤ ell_max` in a row of
     length `n` (source) and write rows of leading shape `srcLead` into rows of `dstLead` -/
@@ -572,6 +575,50 @@ def terms (L1 L2 Lfg : Int) : List Term :=
 def accumulate {β : Type} (add : β → β → β) (val : Term → β) (ts : List Term) (fg0 : Row β) : Row β :=
   ts.foldl (fun fg t => fg.upd t.widx (add (fg.get t.widx) (val t))) fg0
 
+/-! ## entries of Modes×Modes add / subtract / multiply, with and without `out=`
+
+    Arrays are rows by buffer identity (`mem`), so that `out` may be the very buffer of an operand.  The code with
+    `out=` first takes copies of both operands (`.copy()`: their content *before* anything is written), then clears
+    the output (`result[...] = 0.0`), then writes exactly as it does into a fresh `np.zeros`. -/
+
+/-- `res[..., 0:k] = src` -/
+def Row.sliceSet {β : Type} (res : Row β) (k : Nat) (src : Nat → β) : Row β :=
+  ⟨fun p => if p < k then src p else res.get p⟩
+
+/-- `res[..., 0:k] += src` / `-= src` -/
+def Row.sliceAcc {β : Type} (comb : β → β → β) (res : Row β) (k : Nat) (src : Nat → β) : Row β :=
+  ⟨fun p => if p < k then comb (res.get p) (src p) else res.get p⟩
+
+/-- the memory after `np.add(m1, m2, out=…)` / `np.subtract`: `b1`, `b2` the operands' buffers, `bo` the output's
+    (`none`: a fresh buffer `fresh` of zeros); `k1`, `k2` = `LM_total_size(0, ell_max)` of the operands -/
+def addEntries {β : Type} (comb : β → β → β) (zero : β) (k1 k2 : Nat) (mem : Nat → Row β) (b1 b2 fresh : Nat)
+    (out : Option Nat) : (Nat → Row β) × Nat :=
+  let a1 := (mem b1).get
+  let a2 := (mem b2).get
+  match out with
+  | none =>
+    let res : Row β := ⟨fun _ => zero⟩                                            -- np.zeros(shape)
+    (fun i => if i = fresh then (res.sliceSet k1 a1).sliceAcc comb k2 a2 else mem i, fresh)
+  | some bo =>
+    -- `a1, a2 = a1.copy(), a2.copy()`: the values read below are those held before the output is touched
+    let mem1 : Nat → Row β := fun i => if i = bo then ⟨fun _ => zero⟩ else mem i    -- result[...] = 0.0
+    let mem2 : Nat → Row β := fun i => if i = bo then (mem1 bo).sliceSet k1 a1 else mem1 i
+    (fun i => if i = bo then (mem2 bo).sliceAcc comb k2 a2 else mem2 i, bo)
+
+/-- the memory after `np.multiply(m1, m2, out=…)`: `val f g t` is the contribution of term `t` given the operand
+    rows (it does not depend on the output) -/
+def mulEntries {β : Type} (add : β → β → β) (val : (Nat → β) → (Nat → β) → Term → β) (zero : β) (L1 L2 L : Int)
+    (mem : Nat → Row β) (b1 b2 fresh : Nat) (out : Option Nat) : (Nat → Row β) × Nat :=
+  let s := (mem b1).get
+  let o := (mem b2).get
+  match out with
+  | none =>
+    (fun i => if i = fresh then accumulate add (val s o) (terms L1 L2 L) ⟨fun _ => zero⟩ else mem i, fresh)
+  | some bo =>
+    -- `s, o = s.copy(), o.copy()` then `result[...] = 0.0`
+    let mem1 : Nat → Row β := fun i => if i = bo then ⟨fun _ => zero⟩ else mem i
+    (fun i => if i = bo then accumulate add (val s o) (terms L1 L2 L) (mem1 bo) else mem1 i, bo)
+
 /-! ## copy / pickle hooks -/
 
 /-- a metadata value: immutable atoms, or a reference to a mutable Python object (a list, say) -/
@@ -679,17 +726,31 @@ def pickleRoundTrip (h : Heap) (obj : PyObj) : Heap × PyObj :=
   let (h3, d2) := h2.deepCopyDict d1             -- `copy.deepcopy(state[-1])` in `__setstate__`
   (h3, ⟨obj.cls, b, d2⟩)
 
+/-- `Modes.__deepcopy__`: `super().__deepcopy__(memo)` (new data, `__array_finalize__`: a shallow dict copy that is
+    then dropped) followed by `result._metadata = copy.deepcopy(self._metadata, memo)` -/
+def deepCopyHook (h : Heap) (obj : PyObj) : Heap × PyObj :=
+  let (h1, b) := h.copyBuf obj.buf
+  let (h2, c) := finalize h1 b obj
+  let (h3, d) := h2.deepCopyDict obj.dict
+  (h3, { c with dict := d })
+
 inductive Route where
   | copyMethod        -- `obj.copy()`
   | copyCopy          -- `copy.copy(obj)`      (ndarray.__copy__)
-  | deepCopy          -- `copy.deepcopy(obj)`  (ndarray.__deepcopy__: new data, then `__array_finalize__`)
+  | deepCopy          -- `copy.deepcopy(obj)`  (`Modes.__deepcopy__`)
   | npArray           -- `np.array(obj, copy=True, subok=True)`
   | pickle (protocol : Nat)
   deriving DecidableEq, Repr
 
+/-- the routes that deep-copy the metadata values -/
+def Route.deep : Route → Bool
+  | .deepCopy | .pickle _ => true
+  | _ => false
+
 def copyRoute (r : Route) (h : Heap) (obj : PyObj) : Heap × PyObj :=
   match r with
   | .pickle _ => pickleRoundTrip h obj
+  | .deepCopy => deepCopyHook h obj
   | _ =>
     let (h1, b) := h.copyBuf obj.buf
     finalize h1 b obj
